@@ -18,9 +18,9 @@ from sa.triage_escape import TRIAGE  # noqa: E402
 repo = Repo()
 out = {}
 for key in TRIAGE:
-    func = key.split("|")[0]
-    d = function_digest(repo, func)
+    func, _kind, expr, _exc = (key.split("|") + ["", "", ""])[:4]
+    d = function_digest(repo, func, expr)
     if d is not None:
-        out[func] = d
+        out[key] = d
 (Path(__file__).resolve().parent.parent / "sa" / "triage_digests.json").write_text(json.dumps(out, indent=1, sort_keys=True) + "\n")
-print(f"{len(out)} functions recorded for {len(TRIAGE)} entries")
+print(f"{len(out)} sites recorded for {len(TRIAGE)} entries")
